@@ -401,9 +401,9 @@ fn generic_case(rng: &mut Rng, rep: &mut Report) {
 }
 
 pub fn run(tier: Tier, seed: u64) -> MonOut {
-    let ngrids = tier.n(48, 1_500);
+    let ngrids = tier.n(400, 12_000);
     let npoints = tier.n(600, 3_000);
-    let ngeneric = tier.n(3_000, 400_000);
+    let ngeneric = tier.n(100_000, 4_000_000);
     let mut rep = par_cases(seed, ngrids, |_i, rng, rep| grid_case(rng, rep, npoints));
     let r2 = par_cases(seed ^ 0x14, ngeneric, |_i, rng, rep| generic_case(rng, rep));
     rep.merge(r2);
